@@ -235,11 +235,17 @@ impl<'tcx> Cx<'tcx> {
                         let vd = adt.variant(*v);
                         let names: Vec<String> =
                             vd.fields.iter().map(|f| esc(&f.name.to_string())).collect();
+                        let dv = if adt.is_enum() {
+                            adt.discriminant_for_variant(tcx, *v).val
+                        } else {
+                            0
+                        };
                         format!(
-                            "{{\"agg\":\"adt\",\"adt\":{},\"variant\":{},\"vi\":{},\"fields\":[{}]}}",
+                            "{{\"agg\":\"adt\",\"adt\":{},\"variant\":{},\"vi\":{},\"dv\":{},\"fields\":[{}]}}",
                             esc(&tcx.def_path_str(*did)),
                             esc(&vd.name.to_string()),
                             v.as_usize(),
+                            dv,
                             names.join(",")
                         )
                     }
@@ -407,7 +413,13 @@ impl<'tcx> Cx<'tcx> {
                 }
                 other => format!("{{\"k\":\"other\",\"dbg\":{}}}", esc(&format!("{:?}", other))),
             };
-            let _ = write!(s, "{},\"span\":{}}}", tj, esc(&span));
+            let _ = write!(
+                s,
+                "{},\"span\":{},\"texp\":{}}}",
+                tj,
+                esc(&span),
+                t.source_info.span.from_expansion()
+            );
         }
         s.push_str("]}");
         s
@@ -707,7 +719,10 @@ impl rustc_driver::Callbacks for Cb {
                     continue;
                 }
                 let parent = tcx.parent(did);
-                if !matches!(tcx.def_kind(parent), DefKind::Mod) {
+                if !matches!(
+                    tcx.def_kind(parent),
+                    DefKind::Mod | DefKind::Fn | DefKind::AssocFn | DefKind::Closure
+                ) {
                     continue;
                 }
                 if !first {
